@@ -250,6 +250,36 @@ _s("io_manip", r"""
 """, needs_io=True)
 
 
+_s("chrono_periods", r"""
+        probe_chrono_row<std::nano>("nano");
+        probe_chrono_row<std::micro>("micro");
+        probe_chrono_row<std::milli>("milli");
+        probe_chrono_row<std::ratio<1>>("1");
+        probe_chrono_row<std::ratio<60>>("60");
+        probe_chrono_row<std::ratio<3600>>("3600");
+        probe_chrono_row<std::ratio<86400>>("86400");
+        probe_chrono_row<std::ratio<604800>>("604800");
+        probe_chrono_row<std::ratio<2629746>>("2629746");
+        probe_chrono_row<std::ratio<31556952>>("31556952");
+        probe_chrono_row<std::ratio<1, 30>>("1/30");
+        probe_chrono_row<std::ratio<5, 3>>("5/3");
+""", defs="""#include <chrono>
+#include <ratio>
+template <typename Rep, typename Period>
+void probe_chrono_one(const char *tag, const char *rep) {
+    const auto q = au::as_quantity(std::chrono::duration<Rep, Period>{3});
+    const std::chrono::duration<Rep, Period> back = au::as_chrono_duration(q);
+    std::printf("  chrono_periods %s %s [%s] %zu %d\\n", tag, rep, au::unit_label(decltype(q)::unit), sizeof(q), int(back.count() == 3));
+}
+template <typename Period>
+void probe_chrono_row(const char *tag) {
+    probe_chrono_one<std::int64_t, Period>(tag, "i64");
+    probe_chrono_one<int, Period>(tag, "int");
+    probe_chrono_one<double, Period>(tag, "double");
+}
+""")
+
+
 def names():
     return sorted(SNIPPETS)
 
